@@ -3,7 +3,7 @@
 From Coq Require Import NArith List Bool Lia.
 From XV Require Import Base.Str Base.Eqb Spec.XmlNs Gen.WriterTables Model.Writer
   Proofs.WriterTree Proofs.WriterStep Proofs.WriterMaps Proofs.WriterEnc Proofs.WriterCtx
-  Proofs.WriterEscape Proofs.WriterWf Proofs.WriterNative.
+  Proofs.WriterEscape Proofs.WriterWf Proofs.WriterNative Proofs.WriterDenote Proofs.WriterSays.
 Import ListNotations.
 Open Scope N_scope.
 
@@ -179,19 +179,6 @@ Proof.
 Qed.
 
 (* ------------------------------------------------------------------ control-flow guard of WriterStep *)
-Lemma data_plain_of v : value_names_ok v = true -> has_ns_qname v = false -> data_plain v = true.
-Proof.
-  unfold value_names_ok, has_ns_qname, value_qnames, data_plain. intros Hn Hq.
-  apply forallb_forall. intros a Ha. destruct a as [s|q]; [reflexivity|].
-  rewrite forallb_forall in Hn. pose proof (Hn _ Ha) as Hqn. unfold atom_names_ok in Hqn. cbn in Hqn.
-  rewrite andb_true_r in Hqn. rewrite (split_build q Hqn).
-  destruct (fst q) as [[|x u]|] eqn:E; [| |reflexivity].
-  - unfold name_ok in Hqn. rewrite E in Hqn. cbn in Hqn. rewrite andb_false_r in Hqn. discriminate.
-  - exfalso. refine (eq_true_false_abs _ _ Hq).
-    apply existsb_exists. exists q. split; [|destruct q as [ou l]; cbn [fst] in *; subst ou; reflexivity].
-    apply in_flat_map. exists (AQName q). split; [exact Ha|left; reflexivity].
-Qed.
-
 Lemma kids_ok_of ks : forall it,
   adj_ok it ks = true ->
   (forall v, In (IData v) ks -> data_plain v = true) ->
@@ -303,6 +290,24 @@ Proof.
 Qed.
 
 (* ------------------------------------------------------------------ native writer: well-formed output *)
+Lemma native_from_facts cfg user evs q ats ks :
+  guard_facts cfg user evs (INode q ats ks) -> evs = flatten (INode q ats ks) ->
+  exists d, run_native cfg user evs = inl d
+            /\ resolve d = Some (itree_of (wref_root (serializer_ns_map user) (cfg_attrs cfg) q ats ks)).
+Proof.
+  intros F Hev.
+  destruct (document_runs (serializer_ns_map user) (cfg_attrs cfg) q ats ks (gf_item _ _ _ _ F)) as [s' Hrun].
+  destruct (gf_a0 _ _ _ _ F) as [Ha0 Hnd0].
+  pose proof (wref_root_wf (user_default user) (serializer_ns_map user) (cfg_attrs cfg) q ats ks
+                (gf_user _ _ _ _ F) Ha0 Hnd0 (gf_wf _ _ _ _ F)) as Hwf.
+  destruct (native_document _ Hwf (wref_elem_is_node _ _ _ _ _ _ _)) as [k [r [Hs [Hout Hres]]]].
+  exists (rtoks r).
+  unfold run_native. rewrite (winit_idle cfg _ (gf_cfg _ _ _ _ F)).
+  rewrite (run_events_ext nsteps (steps nstep) nsteps_is_steps).
+  rewrite Hev. rewrite (run_events_wrun nstep _ _ _ _ _ Hrun).
+  rewrite <- nsteps_is_steps, Hs. rewrite Hout. split; [reflexivity|exact Hres].
+Qed.
+
 Theorem writer_wellformed_native cfg user evs :
   writer_guard cfg user evs = true ->
   exists q ats ks d,
@@ -312,15 +317,220 @@ Theorem writer_wellformed_native cfg user evs :
 Proof.
   intros Hg. destruct (guard_unpack cfg user evs Hg) as [t F].
   destruct (doc_tree_sound evs t (gf_tree _ _ _ _ F)) as [Hev [q [ats [ks Ht]]]]. subst t.
-  exists q, ats, ks.
-  destruct (document_runs (serializer_ns_map user) (cfg_attrs cfg) q ats ks (gf_item _ _ _ _ F)) as [s' Hrun].
-  destruct (gf_a0 _ _ _ _ F) as [Ha0 Hnd0].
-  pose proof (wref_root_wf (user_default user) (serializer_ns_map user) (cfg_attrs cfg) q ats ks
-                (gf_user _ _ _ _ F) Ha0 Hnd0 (gf_wf _ _ _ _ F)) as Hwf.
-  destruct (native_document _ Hwf (wref_elem_is_node _ _ _ _ _ _ _)) as [k [r [Hs [Hout Hres]]]].
-  exists (rtoks r). split; [exact Hev|].
-  unfold run_native. rewrite (winit_idle cfg _ (gf_cfg _ _ _ _ F)).
-  rewrite (run_events_ext nsteps (steps nstep) nsteps_is_steps).
-  rewrite Hev. rewrite (run_events_wrun nstep _ _ _ _ _ Hrun).
-  rewrite <- nsteps_is_steps, Hs. rewrite Hout. split; [reflexivity|exact Hres].
+  exists q, ats, ks. destruct (native_from_facts cfg user evs q ats ks F Hev) as [d [H1 H2]].
+  exists d. split; [exact Hev|split; assumption].
+Qed.
+
+(* ------------------------------------------------------------------ the configured root attributes as events *)
+Definition cfg_xats (cfg : wconfig) : list (qname * wvalue) :=
+  (match cfg_schema_location cfg with
+   | Some v => [(split_qname qn_xsi_schema_location, VAtom (AText v))] | None => [] end)
+  ++ (match cfg_no_ns_schema_location cfg with
+      | Some v => [(split_qname qn_xsi_no_namespace_schema_location, VAtom (AText v))] | None => [] end).
+
+Lemma with_root_attrs_flatten cfg q ats ks :
+  with_root_attrs (root_extra (cfg_schema_location cfg) (cfg_no_ns_schema_location cfg)) (flatten (INode q ats ks))
+  = flatten (INode q (cfg_xats cfg ++ ats) ks).
+Proof.
+  cbn [flatten with_root_attrs]. f_equal. rewrite map_app, <- app_assoc. f_equal.
+  unfold root_extra, cfg_xats.
+  destruct (cfg_schema_location cfg); destruct (cfg_no_ns_schema_location cfg); reflexivity.
+Qed.
+
+Lemma fold_attrs_app m am a b :
+  fold_attrs m am (a ++ b) = let (am1, m1) := fold_attrs m am a in fold_attrs m1 am1 b.
+Proof.
+  revert m am. induction a as [|[qa v] a IH]; intros m am; [reflexivity|].
+  cbn [app fold_attrs]. destruct (encode_data m (attr_value_conv qa v)) as [enc m']. apply IH.
+Qed.
+
+Lemma cfg_fold cfg m :
+  cfg_texts_ok cfg = true -> fold_attrs m [] (cfg_xats cfg) = (cfg_attrs cfg, m).
+Proof.
+  unfold cfg_texts_ok, cfg_xats, cfg_attrs. cbn [forallb]. intros H.
+  apply andb_true_iff in H as [H1 H2]. apply andb_true_iff in H2 as [H2 _].
+  destruct (cfg_schema_location cfg) as [v1|]; destruct (cfg_no_ns_schema_location cfg) as [v2|];
+    repeat match goal with
+           | H : _ && negb _ = true |- _ => apply andb_true_iff in H as [_ H]; apply negb_true_iff in H
+           end;
+    cbn [app fold_attrs]; rewrite ?conv_plain_text by assumption; reflexivity.
+Qed.
+
+Lemma wref_root_as_events cfg user q ats ks :
+  cfg_texts_ok cfg = true ->
+  wref_root user (cfg_attrs cfg) q ats ks = wref_elem wref [] [] user q (cfg_xats cfg ++ ats) ks.
+Proof.
+  intros H. unfold wref_root, wref_elem. rewrite fold_attrs_app, (cfg_fold cfg _ H). reflexivity.
+Qed.
+
+(* ------------------------------------------------------------------ the guard of the `says` proof *)
+Lemma in_datatype_clark s : existsb (str_eqb s) datatype_qnames = true -> startswith [c_lbrace] s = true.
+Proof.
+  intros H. apply existsb_exists in H as [d [Hd He]]. apply str_eqb_eq in He. subst d.
+  pose proof datatype_qnames_clark as Hall. rewrite forallb_forall in Hall. exact (Hall s Hd).
+Qed.
+
+Lemma cfg_xats_ok cfg user :
+  cfg_texts_ok cfg = true ->
+  (forall u, user_default user = Some u ->
+             forallb (fun q => negb (ostr_eqb (fst q) (Some u))) (root_attr_qnames cfg) = true) ->
+  forallb (sattr_ok (user_default user)) (cfg_xats cfg) = true
+  /\ has_nil (cfg_xats cfg) = false
+  /\ forallb (fun a => negb (value_none (snd a))) (cfg_xats cfg) = true
+  /\ (forall q, forallb (fun a => dq_value (user_default user) q (attr_conv a)) (cfg_xats cfg) = true).
+Proof.
+  intros Ht Hd. unfold cfg_texts_ok in Ht. cbn [forallb] in Ht.
+  apply andb_true_iff in Ht as [H1 H2]. apply andb_true_iff in H2 as [H2 _].
+  assert (Hone : forall qa v, attr_name_ok qa = true -> qname_eqb qa q_xsi_nil_m = false ->
+                              In qa (root_attr_qnames cfg) ->
+                              forallb is_xml_char v = true -> startswith [c_lbrace] v = false ->
+                              sattr_ok (user_default user) (qa, VAtom (AText v)) = true
+                              /\ (forall q, dq_value (user_default user) q (attr_conv (qa, VAtom (AText v))) = true)).
+  { intros qa v Hq _ Hin Hv Hb. unfold sattr_ok, attr_conv. cbn [fst snd]. rewrite (conv_plain_text qa v Hb).
+    split.
+    - rewrite Hq. cbn [value_names_ok value_atoms forallb atom_names_ok atom_qnames value_texts_ok value_texts flat_map app value_none negb andb].
+      rewrite Hv. cbn [andb].
+      assert (Hu : u0_differs (user_default user) (fst qa) = true).
+      { unfold u0_differs. destruct (user_default user) as [u|] eqn:Eu; [|reflexivity].
+        specialize (Hd u eq_refl). rewrite forallb_forall in Hd. exact (Hd qa Hin). }
+      rewrite Hu. cbn [andb]. unfold clark_ok. cbn [fst snd].
+      destruct (existsb (str_eqb v) datatype_qnames) eqn:Ed; [|rewrite orb_true_r; reflexivity].
+      apply in_datatype_clark in Ed. congruence.
+    - intros q. unfold dq_value. destruct (user_default user); [|reflexivity].
+      destruct (fst q) as [[|x r]|]; reflexivity. }
+  set (q1 := split_qname qn_xsi_schema_location) in *.
+  set (q2 := split_qname qn_xsi_no_namespace_schema_location) in *.
+  unfold cfg_xats, root_attr_qnames in *. fold q1 q2 in Hone |- *.
+  destruct (cfg_schema_location cfg) as [v1|]; destruct (cfg_no_ns_schema_location cfg) as [v2|];
+    cbn [app forallb has_nil existsb fst snd].
+  - apply andb_true_iff in H1 as [C1 B1]. apply negb_true_iff in B1.
+    apply andb_true_iff in H2 as [C2 B2]. apply negb_true_iff in B2.
+    destruct (Hone q1 v1 eq_refl eq_refl (or_introl eq_refl) C1 B1) as [A1 A2].
+    destruct (Hone q2 v2 eq_refl eq_refl (or_intror (or_introl eq_refl)) C2 B2) as [A3 A4].
+    rewrite A1, A3. repeat split; try reflexivity. intros q. rewrite A2, A4. reflexivity.
+  - apply andb_true_iff in H1 as [C1 B1]. apply negb_true_iff in B1.
+    destruct (Hone q1 v1 eq_refl eq_refl (or_introl eq_refl) C1 B1) as [A1 A2].
+    rewrite A1. repeat split; try reflexivity. intros q. rewrite A2. reflexivity.
+  - apply andb_true_iff in H2 as [C2 B2]. apply negb_true_iff in B2.
+    destruct (Hone q2 v2 eq_refl eq_refl (or_introl eq_refl) C2 B2) as [A1 A2].
+    rewrite A1. repeat split; try reflexivity. intros q. rewrite A2. reflexivity.
+  - repeat split; reflexivity.
+Qed.
+
+Definition t_dq (u0 : option str) : item -> bool :=
+  match u0 with Some u => t_default_qname_ok u | None => fun _ => true end.
+
+Lemma all_nodes_true i : all_nodes (fun _ _ _ => true) (fun _ => true) i = true.
+Proof.
+  induction i as [v|q ats ks IH] using item_ind2; cbn [all_nodes]; [reflexivity|].
+  apply forallb_forall. intros k Hk. rewrite Forall_forall in IH. exact (IH k Hk).
+Qed.
+
+Lemma forallb_const_true {A} (l : list A) : forallb (fun _ => true) l = true.
+Proof. induction l; [reflexivity|exact IHl]. Qed.
+
+Lemma dq_node_of u0 t : t_dq u0 t = true -> all_nodes (dq_node u0) (fun _ => true) t = true.
+Proof.
+  unfold t_dq. destruct u0 as [u|].
+  - apply all_nodes_impl; [|tauto]. intros [ou l] ats ks H. unfold dq_node, dq_value. cbn [fst] in *.
+    destruct ou as [[|x r]|].
+    + exact H.
+    + rewrite forallb_const_true. cbn [andb]. apply forallb_forall. intros k _. destruct k; reflexivity.
+    + exact H.
+  - intros _. induction t as [v|q ats ks IH] using item_ind2; cbn [all_nodes]; [reflexivity|].
+    apply andb_true_iff. split.
+    + unfold dq_node, dq_value. rewrite forallb_const_true. cbn [andb].
+      apply forallb_forall. intros k _. destruct k; reflexivity.
+    + apply forallb_forall. intros k Hk. rewrite Forall_forall in IH. exact (IH k Hk).
+Qed.
+
+Lemma sguard_of u0 t :
+  wf_guard u0 t = true -> t_nil_ok t = true -> t_no_clark t = true -> t_no_adjacent t = true ->
+  t_no_late_qname t = true -> t_dq u0 t = true -> sguard u0 t = true.
+Proof.
+  intros H1 H2 H3 H4 H5 H6. apply dq_node_of in H6.
+  pose proof (all_nodes_conj _ _ _ _ _ H1 (all_nodes_conj _ _ _ _ _ H2 (all_nodes_conj _ _ _ _ _ H3
+                (all_nodes_conj _ _ _ _ _ H4 (all_nodes_conj _ _ _ _ _ H5 H6))))) as H.
+  unfold sguard. revert H. apply all_nodes_impl.
+  - intros q ats ks Hn. unfold sg_node.
+    apply andb_true_iff in Hn as [Hwf Hn]. apply andb_true_iff in Hn as [Hnil Hn].
+    apply andb_true_iff in Hn as [Hck Hn]. apply andb_true_iff in Hn as [Hadj Hn].
+    apply andb_true_iff in Hn as [Hlate Hdq].
+    unfold node_wf in Hwf. apply andb_true_iff in Hwf as [Hq Hats].
+    rewrite Hq, Hnil, Hadj, Hlate, Hdq. rewrite !andb_true_r. cbn [andb].
+    apply forallb_forall. intros a Ha. rewrite forallb_forall in Hats, Hck.
+    unfold sattr_ok. rewrite (Hats a Ha). cbn [andb]. exact (Hck a Ha).
+  - intros v Hv. apply andb_true_iff in Hv as [Hv _]. exact Hv.
+Qed.
+
+Lemma has_nil_app a b : has_nil (a ++ b) = has_nil a || has_nil b.
+Proof. unfold has_nil. apply existsb_app. Qed.
+
+Lemma sg_node_extra u0 q xats ats ks :
+  forallb (sattr_ok u0) xats = true -> has_nil xats = false ->
+  forallb (fun a => dq_value u0 q (attr_conv a)) xats = true ->
+  sg_node u0 q ats ks = true -> sg_node u0 q (xats ++ ats) ks = true.
+Proof.
+  intros Hx Hn Hd Hg. unfold sg_node in *.
+  apply andb_true_iff in Hg as [Hg Hdq]. apply andb_true_iff in Hg as [Hg Hlate].
+  apply andb_true_iff in Hg as [Hg Hadj]. apply andb_true_iff in Hg as [Hg Hnil].
+  apply andb_true_iff in Hg as [Hq Hats].
+  rewrite Hq, Hadj, Hlate. rewrite forallb_app, Hx, Hats. cbn [andb].
+  unfold dq_node in *. apply andb_true_iff in Hdq as [Hd1 Hd2]. rewrite forallb_app, Hd, Hd1, Hd2. cbn [andb].
+  rewrite !andb_true_r. unfold nil_ok in *. rewrite has_nil_app, Hn. exact Hnil.
+Qed.
+
+(* ------------------------------------------------------------------ C03, native writer *)
+(* what the guard gives for the document element with the configured attributes in front *)
+Lemma root_sguard cfg user evs q ats ks :
+  guard_facts cfg user evs (INode q ats ks) ->
+  writer_guard cfg user evs = true ->
+  sguard (user_default user) (INode q (cfg_xats cfg ++ ats) ks) = true
+  /\ attrs_present (INode q (cfg_xats cfg ++ ats) ks) = true.
+Proof.
+  intros F Hg.
+  assert (Hroot : forall u, user_default user = Some u ->
+                            forallb (fun q => negb (ostr_eqb (fst q) (Some u))) (root_attr_qnames cfg) = true).
+  { intros u Hu. unfold writer_guard, user_map_ok in Hg. apply andb_true_iff in Hg as [Hg _].
+    apply andb_true_iff in Hg as [Hg _]. apply andb_true_iff in Hg as [_ Hda].
+    unfold default_not_on_attr in Hda. rewrite Hu in Hda. apply andb_true_iff in Hda as [_ Hda]. exact Hda. }
+  destruct (cfg_xats_ok cfg user (gf_cfg _ _ _ _ F) Hroot) as [X1 [X2 [X3 X4]]].
+  assert (Hdq : t_dq (user_default user) (INode q ats ks) = true).
+  { unfold t_dq. pose proof (gf_dq _ _ _ _ F) as H. destruct (user_default user); [exact H|reflexivity]. }
+  pose proof (sguard_of _ _ (gf_wf _ _ _ _ F) (gf_nil _ _ _ _ F) (gf_clark _ _ _ _ F) (gf_adj _ _ _ _ F)
+                (gf_late _ _ _ _ F) Hdq) as Hs.
+  cbn [sguard all_nodes] in Hs |- *. apply andb_true_iff in Hs as [Hn Hk].
+  split.
+  - rewrite (sg_node_extra _ q _ ats ks X1 X2 (X4 q) Hn). exact Hk.
+  - pose proof (gf_wf _ _ _ _ F) as Hwf. unfold wf_guard in Hwf. cbn [all_nodes] in Hwf.
+    apply andb_true_iff in Hwf as [Hnw Hkw].
+    unfold attrs_present, t_attrs_present. cbn [all_nodes]. apply andb_true_iff. split.
+    + rewrite forallb_app, X3. cbn [andb]. unfold node_wf in Hnw. apply andb_true_iff in Hnw as [_ Hnw].
+      apply forallb_forall. intros a Ha. rewrite forallb_forall in Hnw. specialize (Hnw a Ha).
+      apply andb_true_iff in Hnw as [Hnw _]. apply andb_true_iff in Hnw as [_ Hnw]. exact Hnw.
+    + apply forallb_forall. intros k Hin. rewrite forallb_forall in Hkw. specialize (Hkw k Hin).
+      revert Hkw. apply all_nodes_impl; [|tauto]. intros q' a' k' H. unfold node_wf in H.
+      apply andb_true_iff in H as [_ H]. apply forallb_forall. intros a Ha. rewrite forallb_forall in H.
+      specialize (H a Ha). apply andb_true_iff in H as [H _]. apply andb_true_iff in H as [_ H]. exact H.
+Qed.
+
+(* ------------------------------------------------------------------ C03, native writer *)
+Theorem writer_sound_native cfg user evs :
+  writer_guard cfg user evs = true ->
+  exists e d t,
+    expected cfg evs = Some e /\ run_native cfg user evs = inl d
+    /\ resolve d = Some t /\ doc_says e t = true.
+Proof.
+  intros Hg. destruct (guard_unpack cfg user evs Hg) as [t F].
+  destruct (doc_tree_sound evs t (gf_tree _ _ _ _ F)) as [Hev [q [ats [ks Ht]]]]. subst t.
+  destruct (native_from_facts cfg user evs q ats ks F Hev) as [d [Hrun Hres]].
+  destruct (root_sguard cfg user evs q ats ks F Hg) as [Hsg Hpres].
+  destruct (root_says (user_default user) (serializer_ns_map user) q (cfg_xats cfg ++ ats) ks
+              (gf_user _ _ _ _ F) Hsg) as [x [ds [a [k [Hden [Hw Hsays]]]]]].
+  destruct (itree_of_flatten q (cfg_xats cfg ++ ats) ks Hpres) as [eats [Hsa Hit]].
+  exists x, d, (itree_of (SNode ds q a k)).
+  split; [|split; [exact Hrun|split; [|exact Hsays]]].
+  - unfold expected, expected_tree. rewrite Hev, with_root_attrs_flatten, Hit.
+    rewrite (denote_node q _ ks eats Hsa) in Hden. inversion Hden. reflexivity.
+  - rewrite Hres, (wref_root_as_events cfg _ q ats ks (gf_cfg _ _ _ _ F)), Hw. reflexivity.
 Qed.
